@@ -43,7 +43,10 @@ def run_case(job):
     box2 = fsbox.Box("c18b")
     try:
         for b in (box, box2):
-            if kind == "tree":
+            if kind == "prefixdirs":
+                b.build({"proj/in/a.cmake": fsbox.cmake_content("a.cmake"), "proj/in/api_helpers/h.cmake": fsbox.cmake_content("h.cmake"),
+                         "proj/in/apix/x.cmake": fsbox.cmake_content("x.cmake"), "proj/in/zeta/z.cmake": fsbox.cmake_content("z.cmake")})
+            elif kind == "tree":
                 tree = Tree(parents, contents)
                 b.build(tree.spec("proj/in"))
             else:
@@ -51,15 +54,15 @@ def run_case(job):
             b.build({"proj/readme.txt": "outside the input\n", "../home/dot.txt": "home\n"})
             with open(b.path("work", "s.yaml"), "w") as f:
                 f.write(SETTINGS[sname] or "{}\n")
-        inp = "proj/in" if kind == "tree" else "proj/in/lone.cmake"
+        inp = "proj/in" if kind in ("tree", "prefixdirs") else "proj/in/lone.cmake"
         if outmode.endswith("+symlink"):
             # the input is reached through a symbolic link to its directory
             for b in (box, box2):
                 os.symlink(os.path.join("proj", "in"), b.path("work", "lnk"))
-            inp = "lnk" if kind == "tree" else "lnk/lone.cmake"
+            inp = "lnk" if kind in ("tree", "prefixdirs") else "lnk/lone.cmake"
             outmode = outmode[:-len("+symlink")]
         out = {"abs": box.path("outside", "o"), "rel": "o/p", "nested": "proj/in/_docs", "parent": "proj",
-               "prepop": "o"}[outmode]
+               "prepop": "o", "nested-prefix": "proj/in/api"}[outmode]
         foreign = {}
         if outmode == "prepop":
             foreign = {"o/foreign.txt": "keep me\n", "o/notes/keep.rst": "unrelated page\n", "o/a.rst": "stale\n"}
@@ -160,6 +163,9 @@ def run(ctx):
                     jobs.append(("tree", parents, a, recursive, outmode, sname))
     for outmode, sname in itertools.product(OUTMODES, SETTINGS):
         jobs.append(("file", None, None, False, outmode, sname))
+    for outmode in ("nested-prefix", "nested", "abs", "rel"):
+        for recursive in (True, False):
+            jobs.append(("prefixdirs", None, None, recursive, outmode, "default"))
     ctx.cov["bounds"] = {"tree_shapes": len(shapes), "output_modes": OUTMODES, "settings": list(SETTINGS), "twin_runs": len(jobs)}
     ctx.sweep(run_case, jobs, space="(tree|file) x output mode x settings, twin runs", selftest=3)
     ctx.assumptions += ["inputs trigger no diagnostics", "the order in which directories are printed is not fixed by the statement; "
